@@ -221,7 +221,12 @@ func runTokLib(t *testing.T, c *engine.Check) {
 var hostileTokMembers = []string{"id_token", "access_token", "refresh_token"}
 
 func runTokHostile(t *testing.T, c *engine.Check) {
-	T := tokAlphabet(c.Thorough())
+	c.RunE1(buildTokHostile(t, c.Thorough()))
+}
+
+// buildTokHostile describes the part; the child process (child_test.go) builds the same.
+func buildTokHostile(t *testing.T, thorough bool) engine.E1 {
+	T := tokAlphabet(thorough)
 	var names []string
 	by := map[string]*helperT{}
 	for i := range helpers {
@@ -232,11 +237,27 @@ func runTokHostile(t *testing.T, c *engine.Check) {
 	}
 	sp := engine.Space{engine.Dim{Name: "helper", Vals: names}, engine.Dim{Name: "member", Vals: hostileTokMembers}, engine.Dim{Name: "tok", Vals: tokNames(T)}}
 	idx := tokIndex(T)
-	c.RunE1(engine.E1{
+	return engine.E1{
 		Part:   "tok-hostile",
 		Space:  sp,
 		Groups: [][]string{{"helper", "member", "tok"}},
-		NewWorker: func(int) func(engine.Vec) engine.Result {
+		NewWorker: func(w int) func(engine.Vec) engine.Result {
+			return isolated("tok-hostile", w, sp, func() func(engine.Vec) engine.Result { return tokHostileWorker(t, sp, by, idx) },
+				func(v engine.Vec) (string, string) {
+					m, tn := sp.Get(v, "member"), sp.Get(v, "tok")
+					rule := "dev/" + m
+					if tn == "valid" {
+						rule = "baseline-must-succeed/" + m
+					}
+					return rule, fmt.Sprintf("helper %s, provider answers 200 with %s=<%s>", sp.Get(v, "helper"), m, tn)
+				})
+		},
+	}
+}
+
+func tokHostileWorker(t *testing.T, sp engine.Space, by map[string]*helperT, idx map[string]*tokT) func(engine.Vec) engine.Result {
+	{
+		{
 			h := newHostPrep(t)
 			honest := rawMembers(h.honest["token"].body)
 			ctxs := map[string]*tokCtx{}
@@ -314,6 +335,6 @@ func runTokHostile(t *testing.T, c *engine.Check) {
 				}
 				return engine.OK(rule, outcome)
 			}
-		},
-	})
+		}
+	}
 }
